@@ -141,15 +141,25 @@ Fixpoint listnat_eqb (a b : list nat) : bool :=
   | _, _ => false
   end.
 
+Fixpoint heights_ok (m o : list nat) (k : list bool) : bool :=
+  match m, o, k with
+  | [], [], [] => true
+  | a :: m', b :: o', kk :: k' => (negb kk || Nat.eqb a b) && heights_ok m' o' k'
+  | _, _, _ => false
+  end.
+
 Record ycase := mkYCase {
   y_start : nat; y_chain : list N; y_proc : list N; y_events : list ev;
-  y_requests : list N; y_heights : list nat; y_processed : list N; y_final : list N;
+  y_requests : list N;
+  y_heights : list nat; y_hknown : list bool;   (* height handed down with each request; known for
+                                                   the blocks that were eventually confirmed *)
+  y_processed : list N; y_final : list N;
   y_idle : bool            (* no synchronisation thread is running at the end *)
 }.
 
 Definition ycase_ok (c : ycase) : bool :=
   let '(s, l) := srun (y_start c) (sinit (y_chain c) (y_proc c)) (y_events c) in
-  listN_eqb (requests_of l) (y_requests c) && listnat_eqb (request_heights_of l) (y_heights c) &&
+  listN_eqb (requests_of l) (y_requests c) && heights_ok (request_heights_of l) (y_heights c) (y_hknown c) &&
   listN_eqb (processed_of l) (y_processed c) && listN_eqb (s_proc s) (y_final c) &&
   Bool.eqb (match s_mode s with None => true | Some _ => false end) (y_idle c).
 Definition ymismatches (cs : list ycase) : list N := failing (map ycase_ok cs).
